@@ -43,6 +43,48 @@ class Obj:
         return "Obj(a=%r, b=%r)" % (self.a, self.b)
 
 
+class Money:
+    """A value whose default presentation (format(m, "")) differs from str(m) and from repr(m)."""
+
+    def __init__(self, amount, currency):
+        self.amount = amount
+        self.currency = currency
+
+    def __format__(self, spec):
+        text = "%.2f %s" % (self.amount, self.currency)
+        return format(text, spec) if spec else text
+
+    def __str__(self):
+        return "Money(%s, %s)" % (self.amount, self.currency)
+
+    def __repr__(self):
+        return "<Money %s %s>" % (self.amount, self.currency)
+
+
+class Job:
+    """An awaitable that is no coroutine (like asyncio.Future): conditions only inspect it."""
+
+    def __init__(self, k):
+        self.k = k
+
+    def done(self):
+        return self.k < 0
+
+    def cancelled(self):
+        return False
+
+    def __await__(self):
+        return self.k
+        yield  # pragma: no cover
+
+    def __repr__(self):
+        return "<Job %d>" % self.k
+
+
+def get_job(k):
+    return Job(k)
+
+
 class StrictEq:
     """A strict value object: comparing it with anything but its own kind is an error."""
 
@@ -273,11 +315,11 @@ def module_source(cases, glob_src):
                 layout = "oneline"
         elif c.get("named"):
             # the condition is a named function: the message shows its name, the description and the arguments
-            lines.append("    def cond_%d(%s):" % (i, ", ".join(params)))
+            lines.append("    def cond_%d(%s):" % (i, lambda_header(c, params)))
             lines.append("        return (%s)" % c["expr"])
             lam = "cond_%d" % i
         else:
-            lam = "lambda %s: %s" % (", ".join(params), c["expr"])
+            lam = "lambda %s: %s" % (lambda_header(c, params), c["expr"])
         extra = ", a_repr=A_REPRS[%d]" % i if c.get("a_repr") else ""
         if c.get("error"):
             extra += ", error=%s" % c["error"]
@@ -434,6 +476,10 @@ def tick(v):
 def special_value(v):
     if not isinstance(v, str):
         return v
+    if v == "MONEY":
+        return Money(12.5, "EUR")
+    if v == "GETJOB":
+        return get_job
     if v == "WEIRDBOOL":
         return WeirdBool()
     if v == "WEIRDCMP":
@@ -662,6 +708,13 @@ def _call(f, env, variant, params):
 DEFAULT_GLOB_SRC = "GL = 7\ny = 1000\ncl = 77\nformat = 1234"      # (`format`: a module-level variable named like a built-in)
 
 
+def lambda_header(case, params):
+    """the parameter list of the condition; `cond_defaults` = parameters of the condition's own with a default value
+    (`lambda x, lower=0: ...`) which the decorated function does not have"""
+    d = case.get("cond_defaults") or {}
+    return ", ".join(list(params) + ["%s=%r" % (k, d[k]) for k in sorted(d)])
+
+
 def full_source(cases, glob_src=DEFAULT_GLOB_SRC):
     return module_source(cases, "from implexpr import tick\n" + glob_src)
 
@@ -738,6 +791,9 @@ def run_batch(cases, glob_src=DEFAULT_GLOB_SRC, closure_value=5, normalise_locat
             # PYTHON's scoping: only the condition's own parameters are its local variables; a parameter of the decorated
             # function which the condition does not take leaves the name to the closure / the module's globals
             oenv = env if kind == "invariant" or any(p.startswith("*") for p in params) else dict((k, v) for k, v in env.items() if k in params)
+            if kind != "invariant":
+                oenv = dict(oenv)
+                oenv.update(c.get("cond_defaults") or {})       # the call does not supply them: Python binds the defaults
             orc = oracle(c["expr"], oenv, {"cl": closure_value}, glob)
             ob["oracle_ticks"] = list(TICKS)
             ob["oracle_value_falsy"] = (orc["exc"] is None and not orc["value"])
